@@ -276,6 +276,27 @@ def run(tier):
                          files={"s.l": v["spec"], "s_tables.h": v["tables"]})
         if len(ck.samples) < 12 and ran % 40 == 1:
             ck.sample({"point": tag, "executions": sm["executions"], "tokens": sm["tokens"]})
+    # the same multiple-buffer history in every API flavour / back end: sources pushed from actions, popped by the caller or at their
+    # end, switched and restarted - all histories with at most 2 (thorough 3) deviations on the buffer driver of C10/C11
+    # (round-7 seed C02-r7m3: the c99 skeleton alone forgot to save a suspended buffer's fill state)
+    from .. import bufharness as BH
+    bdev = 2 if quick else 3
+    bjobs = [BH.make_job(api, [None], {"VF_BUDGET_DEFAULT": bdev, "VF_BUDGET_TOTAL": bdev, "VF_CALLMASK": 0x1fff & ~(1 << 12), "VF_MAX_OPS": bdev,
+                                       "VF_ACTION_PUSH": 1, **({"VF_READ_ONE": ro} if ro else {})}, "buffers-%s-%s" % (api, ro),
+                         options=["noyyalloc", "noyyrealloc", "noyyfree"], cdefs=["VF_LEDGER"])
+             for api in ("NR", "R", "C99") for ro in (None, 2)]
+    bexec = 0
+    for bj, r in pmap(H.run_groups_job, bjobs, check=ck):
+        if "worker_exception" in r or "build_failure" in r or r.get("summary") is None:
+            ck.broken.append("buffer-history job %s did not run: %s" % (bj["tag"], str(r.get("worker_exception") or r.get("build_failure") or r.get("stderr"))[:300]))
+            continue
+        bexec += r["summary"].get("executions", 0)
+        for v in r["viols"]:
+            ck.violation("C02:buffer-history:%s:%s" % (bj["api"], v.get("what", v.get("msg", v["viol"]))),
+                         "%s: history '%s': %s (expected %s, observed %s)" % (bj["tag"], v.get("history"), v.get("what", v.get("msg")), v.get("exp"), v.get("obs")),
+                         case={"cmd": v["cmd"], "viol": {k: v[k] for k in v if k not in ("spec", "tables", "cmd")}}, files={"s.l": v["spec"], "s_tables.h": v["tables"]})
+    ck.cov["buffer_history_executions"] = bexec
+    ck.guard(bexec > 10000, "too few buffer histories: %d" % bexec)
     # serialized tables in a file that holds several scanners' sets (manual, "Serialized Tables": cat a.tables b.tables > all.tables):
     # each scanner must behave as with in-code tables wherever its set stands in the file (round-4 seed C02-r4m3)
     from . import c15
